@@ -15,6 +15,7 @@ judged by the property (`monitor`), compared with the Lean model run on the same
 (`compare`), and the remainder of the history is executed on it (restart: the interrupted operation
 retried or abandoned).  A sample of crash points is repeated with a forked process that really dies
 (`os._exit`) to validate the copy method.  Crash points are enumerated, not sampled."""
+import errno
 import hashlib
 import json
 import os
@@ -32,7 +33,8 @@ MANIFEST = dict(
     text='Lean theorems over an executable micro-step model of the shelve blob store, proved about the '
          'update program that is regenerated from db/util (encode, move), shelve/comms (Worker.do, Func.set) '
          'and shelve/model (_update, _update_msv) on every run: for every history of updates, removals and '
-         'purges with arbitrary repeating contents and a crash after any micro-step of any update '
+         'purges with arbitrary repeating contents and a crash after any micro-step of any update, in both '
+         'configurations (staging directory on the store\'s file system / on another one) '
          '(no_dangling, name_is_digest, single_copy, isnew_iff, isnew_in_history, crashed_update_silent, '
          'staged_garbage, completed_update; invariant by symbolic execution of every crash prefix and '
          'induction over the history).  The model is tied to the real code by a run on every check: real '
@@ -42,9 +44,9 @@ MANIFEST = dict(
     note='Trusted: Lean kernel; axioms propext/Classical.choice/Quot.sound only; tools/gen_c07.py (AST -> '
          'micro-step list, validated against the observed call order); harness loop-back (socket and lock '
          'bypassed), call interceptors and canonicalisation.  Assumed, not verified: digest collision '
-         'freedom (hypothesis of isnew_iff), rename atomicity within one file system (data_stg and data_dbs '
-         'are separately configurable: on different file systems shutil.move copies then deletes and a crash '
-         'in between can leave a truncated file under a digest name - not exercised), dbm durability (a '
+         'freedom (hypothesis of isnew_iff), atomicity of os.replace within data_dbs (the only rename atomicity '
+         'still assumed; the move of the staged file into data_dbs/incoming is modelled and exercised both as an '
+         'atomic rename and as the copy + unlink that shutil.move performs across file systems, EXDEV injected), dbm durability (a '
          'process crash is simulated, not a kernel crash; partial dbm writes are not modelled), '
          'tempfile.mkstemp uniqueness, sequential updates (the database lock serialises writers; '
          'concurrent writers are not modelled).  PostgreSQL backend not tied.',
@@ -55,8 +57,11 @@ MANIFEST = dict(
 
 TRUSTED = [
     'digest collision freedom of md5sum+sha1sum on the contents seen (hypothesis Function.Injective h of isnew_iff)',
-    'os.rename atomicity within one file system; dawgie.context.data_stg and data_dbs are configured separately, '
-    'on different file systems shutil.move copies then unlinks (a crash in between is not exercised)',
+    'os.replace of a file inside the store directory tree (data_dbs/incoming/<f> -> data_dbs/<digest>) is atomic: '
+    'one micro-step of the model in both configurations; shutil.move of the staged file is one atomic os.rename when '
+    'data_stg is on the store\'s file system and create / partial write / complete / unlink-source when it is not '
+    '(both configurations are modelled, proved and exercised; the second by answering EXDEV to os.rename inside '
+    'the harness, signatures C07:xfs:*)',
     'dbm/shelve durability: a crash is a process exit (os._exit), not a kernel crash; torn dbm writes are not modelled',
     'tempfile.mkstemp returns a name that does not exist (model: counter)',
     'updates are sequential (database lock); the socket, the lock handshake and PGP/TLS are bypassed by a loop-back '
@@ -64,8 +69,7 @@ TRUSTED = [
     'pickle.dump(value, file) and pickle.dumps(value) produce the same bytes (checked on every completed update)',
 ]
 
-STEPS = ('mkstemp', 'dump', 'digest', 'probe', 'place', 'record', 'reply', 'flag')
-NSTEPS = len(STEPS)
+DONE = 99  # crash budget of an update that ran to its end (more than any configuration's micro-steps)
 CRASH_RC = 99
 METRIC_KEYS = ['input', 'mem', 'output', 'pages', 'sys', 'user', 'wall']
 MSV_NAMES = ['input', 'memory', 'output', 'pages', 'system', 'user', 'wall']
@@ -256,6 +260,8 @@ class RT:
     events = []
     hook = None      # called with the tick record BEFORE the intercepted call is executed
     kill_at = 0      # forked cross-check only: os._exit in front of this call
+    xfs = False      # configuration "staging area on another file system": rename stg -> dbs fails with EXDEV
+    in_move = None   # (src, dst) while the real shutil.move called by db.util.move is running
 
 
 def emit(rec):
@@ -269,7 +275,11 @@ def tick(label, detail=None):
     if RT.kill_at and RT.ordinal == RT.kill_at:
         os._exit(CRASH_RC)
     if RT.hook is not None:
-        RT.hook(rec)
+        saved, RT.in_move = RT.in_move, None  # the harness' own copies must not look like the move under test
+        try:
+            RT.hook(rec)
+        finally:
+            RT.in_move = saved
 
 
 class _Proxy:
@@ -321,6 +331,8 @@ class FakeTransport:
 def snapshot_store():
     out = []
     for fn in sorted(os.listdir(RT.env.dbs)):
+        if not os.path.isfile(os.path.join(RT.env.dbs, fn)):
+            continue
         with open(os.path.join(RT.env.dbs, fn), 'rb') as f:
             out.append([fn, sha(f.read())])
     return out
@@ -350,13 +362,104 @@ def install():
     dbu.pickle = _Proxy(pickle, {}, {'dump': dump})
     dbu.tempfile = _Proxy(tempfile, {'mkstemp': 'mkstemp', 'mkdtemp': 'mkstemp', 'NamedTemporaryFile': 'mkstemp'})
     ospath = _Proxy(os.path, {'exists': 'probe', 'isfile': 'probe', 'lexists': 'probe'})
-    fs = {'unlink': 'unlink', 'remove': 'unlink', 'rename': 'rename', 'replace': 'rename', 'renames': 'rename',
-          'link': 'link', 'symlink': 'link', 'chmod': 'chmod'}
+    fs = {'unlink': 'unlink', 'remove': 'unlink', 'rename': 'replace', 'replace': 'replace', 'renames': 'replace',
+          'link': 'link', 'symlink': 'link', 'chmod': 'chmod', 'makedirs': 'mkdirs', 'mkdir': 'mkdirs'}
     dbu.os = _Proxy(os, fs, {'path': ospath})
     dbu.subprocess = _Proxy(subprocess, {k: 'digest' for k in
                                          ('check_output', 'run', 'call', 'check_call', 'Popen', 'getoutput')})
-    dbu.shutil = _Proxy(shutil, {'move': 'rename', 'copy': 'copy', 'copy2': 'copy', 'copyfile': 'copy',
-                                 'copyfileobj': 'copy'})
+
+    # configuration "staging area on another file system" (RT.xfs): no second file system is needed, the
+    # kernel's answer to a cross-device rename (EXDEV) is given for every rename from the staging directory
+    # into the store, so that the REAL shutil.move takes its real copy2 + unlink path; the calls of that path
+    # (open of the destination, every sendfile, copystat, unlink of the source) become crash points, and
+    # sendfile is asked for the bytes in four pieces (1, half, all but one, rest) = real partial writes.
+    def crosses(src, dst):
+        try:
+            a, b = os.path.abspath(os.fsdecode(src)), os.path.abspath(os.fsdecode(dst))
+        except TypeError:
+            return False
+        return a.startswith(RT.env.stg + os.sep) and b.startswith(RT.env.dbs + os.sep)
+
+    def exdev(src, dst):
+        return OSError(errno.EXDEV, os.strerror(errno.EXDEV), os.fsdecode(src), None, os.fsdecode(dst))
+
+    def in_copy():
+        return RT.xfs and RT.in_move is not None
+
+    def where(dst):
+        """which directory a destination path lies in, in the model's vocabulary"""
+        try:
+            d = os.path.dirname(os.path.abspath(os.fsdecode(dst)))
+        except TypeError:
+            return '?'
+        if d == RT.env.dbs:
+            return 'store'
+        return 'incoming' if d.startswith(RT.env.dbs + os.sep) else ('stage' if d == RT.env.stg else '?')
+
+    def through(label, real):
+        def f(src, dst, *a, **kw):
+            tick(label + ':' + where(dst), _brief((src, dst)))
+            RT.in_move = (src, dst)
+            try:
+                return real(src, dst, *a, **kw)
+            finally:
+                RT.in_move = None
+        return f
+
+    dbu.shutil = _Proxy(shutil, {'copyfileobj': 'copy'},
+                        {'move': through('move', shutil.move), 'copy': through('copy', shutil.copy),
+                         'copy2': through('copy', shutil.copy2), 'copyfile': through('copy', shutil.copyfile)})
+
+    def direct_rename(real):
+        def f(src, dst, *a, **kw):
+            tick('replace' if where(src) == 'incoming' else 'move:' + where(dst), _brief((src, dst)))
+            if RT.xfs and crosses(src, dst):
+                raise exdev(src, dst)
+            return real(src, dst, *a, **kw)
+        return f
+
+    dbu.os._sub.update({'rename': direct_rename(os.rename), 'replace': direct_rename(os.replace)})
+
+    def sh_rename(src, dst, *a, **kw):
+        if in_copy() and crosses(src, dst):
+            raise exdev(src, dst)
+        return os.rename(src, dst, *a, **kw)
+
+    def sh_sendfile(out, in_, offset, count):
+        if not in_copy():
+            return os.sendfile(out, in_, offset, count)
+        size = os.fstat(in_).st_size
+        tick('xcopy:write', ['@%d/%d' % (offset, size)])
+        nxt = [c for c in sorted({1, size // 2, size - 1}) if offset < c < size]
+        return os.sendfile(out, in_, offset, min(count, nxt[0] - offset) if nxt else count)
+
+    def sh_unlink(path, *a, **kw):
+        if in_copy() and os.path.abspath(os.fsdecode(path)).startswith(RT.env.stg + os.sep):
+            tick('xcopy:unlink', _brief((path,)))
+        return os.unlink(path, *a, **kw)
+
+    shutil.os = _Proxy(os, {}, {'rename': sh_rename, 'sendfile': sh_sendfile, 'unlink': sh_unlink})
+
+    def sh_open(file, mode='r', *a, **kw):
+        if in_copy() and 'w' in mode and isinstance(file, (str, bytes, os.PathLike)) \
+                and os.path.abspath(os.fsdecode(file)).startswith(RT.env.dbs + os.sep):
+            tick('xcopy:create', _brief((file,)))
+        return open(file, mode, *a, **kw)
+
+    shutil.open = sh_open
+    real_copystat, real_copyfileobj = shutil.copystat, shutil.copyfileobj
+
+    def sh_copystat(src, dst, *a, **kw):
+        if in_copy():
+            tick('xcopy:copystat', _brief((src, dst)))
+        return real_copystat(src, dst, *a, **kw)
+
+    def sh_copyfileobj(fsrc, fdst, *a, **kw):
+        if in_copy():
+            tick('xcopy:write', ['fallback'])
+        return real_copyfileobj(fsrc, fdst, *a, **kw)
+
+    shutil.copystat, shutil.copyfileobj = sh_copystat, sh_copyfileobj
 
     def listdir(path='.'):
         ls = os.listdir(path)
@@ -502,7 +605,7 @@ class Killed(BaseException):
     """raised by a hook to stop the execution after the last snapshot that is wanted"""
 
 
-def execute(env, hist, start=0, hook=None, kill_at=0):
+def execute(env, hist, start=0, hook=None, kill_at=0, xfs=False):
     """run hist[start:] through the real code on the directories of `env`.
     Returns (events, exception record or None)."""
     from dawgie.db.shelve.state import DBI
@@ -512,6 +615,7 @@ def execute(env, hist, start=0, hook=None, kill_at=0):
         DBI().close()
     env.configure()
     RT.env, RT.ordinal, RT.flat, RT.events, RT.hook, RT.kill_at = env, 0, -1, [], hook, kill_at
+    RT.xfs, RT.in_move = bool(xfs), None
     failure = None
     DBI().open()
     try:
@@ -530,7 +634,7 @@ def execute(env, hist, start=0, hook=None, kill_at=0):
     return RT.events, failure
 
 
-def killed_run(env, hist, n):
+def killed_run(env, hist, n, xfs=False):
     """cross-check of the snapshot method: a forked process really dies (os._exit) in front of call #n"""
     sys.stdout.flush()
     sys.stderr.flush()
@@ -540,7 +644,7 @@ def killed_run(env, hist, n):
             devnull = os.open(os.devnull, os.O_WRONLY)
             os.dup2(devnull, 1)
             os.dup2(devnull, 2)
-            execute(env, hist, 0, None, n)
+            execute(env, hist, 0, None, n, xfs)
         finally:
             os._exit(0)
     _, status = os.waitpid(pid, 0)
@@ -572,8 +676,19 @@ def observe(env):
 
     store = {}
     for fn in sorted(os.listdir(env.dbs)):
+        if not os.path.isfile(os.path.join(env.dbs, fn)):
+            continue  # sub-directories are not stored values (purge.py skips them as well)
         with open(os.path.join(env.dbs, fn), 'rb') as f:
             store[fn] = f.read()
+    incoming = {}
+    inc = os.path.join(env.dbs, 'incoming')
+    for root, _dirs, files in (os.walk(env.dbs) if os.path.isdir(env.dbs) else []):
+        if root == env.dbs:
+            continue  # sub-directories of the store hold files in transit, never stored values
+        for fn in sorted(files):
+            with open(os.path.join(root, fn), 'rb') as f:
+                incoming[os.path.relpath(os.path.join(root, fn), env.dbs)] = f.read()
+    del inc
     stage = {}
     for fn in sorted(os.listdir(env.stg)):
         p = os.path.join(env.stg, fn)
@@ -602,7 +717,7 @@ def observe(env):
         except Exception:  # pylint: disable=broad-except
             label = 'raw:' + k.replace(' ', '')
         prime[label] = v
-    return {'store': store, 'stage': stage, 'prime': prime}
+    return {'store': store, 'stage': stage, 'incoming': incoming, 'prime': prime}
 
 
 def digest_name(content):
@@ -616,41 +731,81 @@ def is_digest_name(name, content):
 
 
 # ------------------------------------------------------------------ analysis of one executed segment
-def budgets(flat, events, rc):
+def done_steps(ticks, xfs):
+    """executed intercepted calls of ONE update -> the micro-steps of the model they complete, in order
+    (the vocabulary of `(blob program <xfs>)`)"""
+    seq, dst = [], 'incoming'
+
+    def add(x):
+        if x not in seq:
+            seq.append(x)
+
+    for t in ticks:
+        l, d = t['l'], t.get('d') or []
+        if l in ('mkstemp', 'dump', 'digest', 'probe', 'unlink', 'mkdirs', 'replace', 'flag'):
+            add(l)
+        elif l.startswith('move:'):
+            dst = l[5:]
+            if not xfs:
+                add('rename:' + dst)
+        elif l.startswith('copy:') or l in ('copy', 'link'):
+            add('copy')
+        elif l == 'xcopy:create':
+            add('create:' + dst)
+        elif l == 'xcopy:write':
+            if d and d[0].startswith('@'):
+                o, size = (int(x) for x in d[0][1:].split('/'))
+                nxt = [c for c in sorted({1, size // 2, size - 1}) if o < c < size]
+                if o >= size:
+                    continue
+                add('torn:' + dst)
+                if not nxt:
+                    add('fill:' + dst)
+            else:
+                add('torn:' + dst)
+                add('fill:' + dst)
+        elif l == 'xcopy:unlink':
+            add('dropSrc')
+        elif l == 'set:prime':
+            add('record')
+        elif l == 'send' and d and d[0] in ('True', 'False'):
+            add('reply')
+    return seq
+
+
+def budgets(flat, events, rc, xfs=False):
     """per model-level operation: how many micro-steps of the model's update program the real code
-    completed before the process ended (None: the operation was never started)."""
+    completed before the process ended (None: the operation was never started; DONE: it ran to its end)."""
     crashed = rc == CRASH_RC
     ticks = [e for e in events if e['e'] == 'tick']
     if crashed and ticks:
         ticks = ticks[:-1]  # the last logged call was not executed
-    done = {}
     entered = set()
     for e in events:
         if e['e'] in ('enter', 'enter-del', 'enter-purge'):
             entered.add(e['f'])
     flagged = {e['f'] for e in events if e['e'] == 'flag'}
-    step_of = {'mkstemp': 1, 'dump': 2, 'chmod': 2, 'digest': 2, 'probe': 2, 'unlink': 5, 'rename': 5, 'copy': 5,
-               'link': 5, 'set:prime': 6, 'send': 7}
-    for t in ticks:
-        f = t['f']
-        if f < 0 or f >= len(flat) or flat[f][0] != 'upd':
-            continue
-        done[f] = max(done.get(f, 0), step_of.get(t['l'], 0))
+    start = {e['f']: i for i, e in enumerate(events) if e['e'] == 'enter'}
+    executed = {id(t) for t in ticks}
     out = []
     for f, op in enumerate(flat):
         if f not in entered:
             out.append(None)
         elif op[0] == 'upd':
-            out.append(NSTEPS if f in flagged else done.get(f, 0))
+            if f in flagged:
+                out.append(DONE)
+            else:
+                mine = [t for t in events[start[f]:] if t['e'] == 'tick' and t['f'] == f and id(t) in executed]
+                out.append(len(done_steps(mine, xfs)))
         else:
             out.append(0)
     return out
 
 
-def model_line(flat, events, rc, carried):
+def model_line(flat, events, rc, carried, xfs=False):
     """the s-expression line for the Lean model: operations of earlier segments (`carried`) plus this
     segment's operations with the crash budget the real process reached"""
-    bs = budgets(flat, events, rc)
+    bs = budgets(flat, events, rc, xfs)
     ops = list(carried)
     crashed = rc == CRASH_RC
     ticks = [e for e in events if e['e'] == 'tick']
@@ -691,7 +846,8 @@ def canon_impl(obs, cids):
     prime = {}
     for k, v in obs['prime'].items():
         prime[k] = str(cid(obs['store'][v])) if v in obs['store'] else 'DANGLING'
-    return {'store': store, 'prime': dict(sorted(prime.items())), 'stage': len(obs['stage'])}
+    return {'store': store, 'prime': dict(sorted(prime.items())), 'stage': len(obs['stage']),
+            'incoming': len(obs['incoming'])}
 
 
 def canon_model(reply):
@@ -702,13 +858,14 @@ def canon_model(reply):
     return {'store': sorted(c for _n, c in d['store']),
             'prime': dict(sorted((k, n) for k, n in d['prime'])),
             'stage': len(d['stage']),
+            'incoming': len(d['incoming']),
             'flags': list(d['flags'])}
 
 
-def sx_ops(ops):
+def sx_ops(ops, xfs=False):
     """model operations -> s-expression (purge lists already hold content ids: the model's digest is the
     identity on content ids; unknown files got ids nobody else uses)"""
-    out = ['blob', 'run']
+    out = ['blob', 'run', bool(xfs)]
     for o in ops:
         if o[0] == 'upd':
             out.append(['upd', o[1], o[2], o[3]])
@@ -720,29 +877,32 @@ def sx_ops(ops):
 
 
 # ------------------------------------------------------------------ the property on the real code
-def monitor(res, events, rc, obs, crashes_so_far, replay):
+def monitor(res, events, rc, obs, crashes_so_far, replay, sigp='C07:'):
     """C07 stated over what the real code left on disk and reported.  `crashes_so_far` = number of
     updates cut short by a crash in this store's life (bounds the staged leftovers)."""
     store, prime, stage = obs['store'], obs['prime'], obs['stage']
     where = replay.get('crash')
     at = f' (process killed in front of call #{where[0]} [{where[2]}])' if where else ''
+    if replay.get('then'):
+        at += f", then restarted and the interrupted operation {'retried' if replay['then'] == 'retry' else 'skipped'}"
+    cfg = '[staging area on another file system] ' if replay.get('xfs') else ''
     # every stored file hashes to its own name
     for fn, b in store.items():
         if not is_digest_name(fn, b):
-            res.hit('C07:name-not-digest',
+            res.hit(sigp + 'name-not-digest', cfg +
                     f'stored file {fn[:20]}..{fn[-12:]} ({len(b)} bytes) does not hash to its own name: md5_sha1 of '
                     f'the whole file is {digest_name(b)[:20]}..{digest_name(b)[-12:]}{at}', replay)
     # identical content is kept once
     seen = {}
     for fn, b in store.items():
         if sha(b) in seen:
-            res.hit('C07:duplicate-content', f'identical content stored twice: {seen[sha(b)][:16]}.. and {fn[:16]}..{at}',
+            res.hit(sigp + 'duplicate-content', cfg + f'identical content stored twice: {seen[sha(b)][:16]}.. and {fn[:16]}..{at}',
                     replay)
         seen[sha(b)] = fn
     # no dangling reference
     for k, v in prime.items():
         if v not in store:
-            res.hit('C07:dangling', f'catalogue entry {k} names {str(v)[:24]}.. which is not in the store{at}', replay)
+            res.hit(sigp + 'dangling', cfg + f'catalogue entry {k} names {str(v)[:24]}.. which is not in the store{at}', replay)
     # novelty flag <=> content was not in the store before this update
     enters = {e['f']: e for e in events if e['e'] == 'enter'}
     for e in events:
@@ -751,14 +911,17 @@ def monitor(res, events, rc, obs, crashes_so_far, replay):
         before = {s for _n, s in enters[e['f']]['store']}
         want = enters[e['f']]['x'] not in before
         if e['isnew'] != want:
-            res.hit('C07:isnew-wrong',
+            res.hit(sigp + 'isnew-wrong', cfg +
                     f"update #{e['f']} ({e['name']}) reported isnew={e['isnew']} but identical content was "
-                    f"{'not ' if want else ''}in the store before", replay)
-    # identical content is kept once: the staged copy is moved or discarded, crashes may leave one each
-    if len(stage) > crashes_so_far:
-        res.hit('C07:staged-copy-kept',
-                f'{len(stage)} staged file(s) left behind by {crashes_so_far} interrupted update(s): the staged '
-                f'copy of a value is neither moved into the store nor discarded', replay)
+                    f"{'not ' if want else ''}in the store before{at}", replay)
+    # identical content is kept once: the staged copy is moved or discarded; an interrupted update may leave one
+    # file in the staging directory and one in a sub-directory of the store (incoming), nothing else
+    incoming = obs.get('incoming', {})
+    if len(stage) > crashes_so_far or len(incoming) > crashes_so_far:
+        res.hit(sigp + 'staged-copy-kept', cfg +
+                f'{len(stage)} staged file(s) and {len(incoming)} file(s) in transit inside the store left behind '
+                f'by {crashes_so_far} interrupted update(s): the staged copy of a value is neither moved into the '
+                f'store nor discarded{at}', replay)
 
 # ------------------------------------------------------------------ one history, all crash points
 def crash_points(events):
@@ -772,19 +935,21 @@ def crash_points(events):
     return pts
 
 
-def observed_program(events, f):
-    """order of effects of update #f as the model's vocabulary (validates the translator's reading)"""
-    seq = []
-    names = {'mkstemp': 'mkstemp', 'dump': 'dump', 'digest': 'digest', 'probe': 'probe', 'unlink': 'place',
-             'rename': 'place', 'set:prime': 'record', 'send': 'reply', 'flag': 'flag'}
+def observed_program(events, f, xfs):
+    """(exists?, micro-steps) of the completed update #f as the real code performed them, in the model's
+    vocabulary: compared with the regenerated program expanded for the configuration"""
+    mine, ex = [], None
+    started = False
     for e in events:
-        if e['e'] == 'tick' and e['f'] == f and e['l'] in names:
-            n = names[e['l']]
-            if not seq or seq[-1] != n:
-                seq.append(n)
-            if n == 'flag':
+        if e['e'] == 'enter' and e['f'] == f:
+            started = True
+        elif started and e['e'] == 'tick' and e['f'] == f:
+            mine.append(e)
+            if e['l'] == 'send' and e.get('d') and e['d'][0] in ('True', 'False'):
+                ex = e['d'][0] == 'True'
+            if e['l'] == 'flag':
                 break
-    return seq
+    return [ex, done_steps(mine, xfs)]
 
 
 class Case:
@@ -793,7 +958,9 @@ class Case:
     re-read, judged and compared with the model; then the remainder of the history is executed on every
     copy (restart after the crash: the interrupted operation retried or abandoned)."""
 
-    def __init__(self, hist, cont='all', kills=0, seed=0):
+    def __init__(self, hist, cont='all', kills=0, seed=0, xfs=False):
+        self.xfs = bool(xfs)  # configuration "staging area on another file system": own signatures C07:xfs:*
+        self.sigp = 'C07:xfs:' if xfs else 'C07:'
         self.hist = hist
         self.flat = flatten(hist)
         self.cont = cont
@@ -816,10 +983,10 @@ class Case:
         """property + queue the model comparison for one observed disk state"""
         flat = [o for o in self.flat if o[3] >= start]  # operations are numbered from the segment's start
         rc = CRASH_RC if crashed else 0
-        ops, bs = model_line(flat, events, rc, carried)
-        cut = crashed and any(b is not None and 0 < b < NSTEPS and flat[f][0] == 'upd' for f, b in enumerate(bs))
+        ops, bs = model_line(flat, events, rc, carried, self.xfs)
+        cut = crashed and any(b is not None and 0 < b < DONE and flat[f][0] == 'upd' for f, b in enumerate(bs))
         ncr = crashes_before + (1 if cut else 0)
-        monitor(res, events, rc, obs, ncr, replay)
+        monitor(res, events, rc, obs, ncr, replay, self.sigp)
         flags = {e['f']: e['isnew'] for e in events if e['e'] == 'flag'}
         names = {}
         for i, (fn, b) in enumerate(sorted(obs['store'].items())):
@@ -833,7 +1000,7 @@ class Case:
                for o in ops]
         impl = canon_impl(obs, self.cids)
         impl['flags'] = ['T' if v else 'F' for _f, v in sorted(flags.items())]
-        self.lines.append((sx_ops(ops), impl, len(carried), replay, crashed))
+        self.lines.append((sx_ops(ops, self.xfs), impl, len(carried), replay, crashed))
         return ops, ncr
 
     def fail(self, failure, replay):
@@ -846,11 +1013,16 @@ class Case:
         preferring the window between placing the file and reporting the flag"""
         if self.cont == 'all':
             return {(rec['n'], mode): (True, False) for rec, _ev, _snap, mode in points}
+        if self.cont == 'xfs':  # every crash point inside shutil.move's copy path and up to the flag
+            return {(rec['n'], mode): (True, False) for rec, _ev, _snap, mode in points
+                    if rec['l'].startswith(('xcopy:', 'move:', 'copy')) or rec['l'] in ('mkdirs', 'replace', 'unlink', 'set:prime', 'flag')
+                    or (rec['l'] == 'send' and rec['d'] and rec['d'][0] in ('True', 'False'))}
         if not self.cont:
             return {}
         r = common.rng(self.seed, 'C07-cont')
         hot = [(rec['n'], mode) for rec, _ev, _snap, mode in points
-               if mode == 'partial' or rec['l'] in ('rename', 'unlink', 'set:prime', 'flag', 'probe', 'del:prime')
+               if mode == 'partial' or rec['l'].startswith(('move:', 'xcopy:'))
+               or rec['l'] in ('mkdirs', 'replace', 'unlink', 'set:prime', 'flag', 'probe', 'del:prime')
                or (rec['l'] == 'send' and rec['d'] and rec['d'][0] in ('True', 'False'))]
         cold = [(rec['n'], mode) for rec, _ev, _snap, mode in points if (rec['n'], mode) not in set(hot)]
         k = int(self.cont)
@@ -877,21 +1049,22 @@ class Case:
                     torn.close()
 
         try:
-            events, failure = execute(env, hist, 0, hook)
+            base = {'hist': hist, 'xfs': True} if self.xfs else {'hist': hist}
+            events, failure = execute(env, hist, 0, hook, 0, self.xfs)
             if failure:
-                self.fail(failure, {'hist': hist})
-            self.judge(res, 0, events, False, observe(env), [], 0, {'hist': hist})
+                self.fail(failure, dict(base))
+            self.judge(res, 0, events, False, observe(env), [], 0, dict(base))
             self.count('updates', sum(1 for o in flat if o[0] == 'upd'))
-            self.program = [observed_program(events, f) for f, o in enumerate(flat) if o[0] == 'upd']
+            self.program = [observed_program(events, f, self.xfs) for f, o in enumerate(flat) if o[0] == 'upd']
             before = {}
             chosen = self.choose(points)
             for rec, ev, snap, mode in points:
                 n, label = rec['n'], rec['l']
-                replay = {'hist': hist, 'crash': [n, mode, label]}
+                replay = dict(base, crash=[n, mode, label])
                 obs = observe(snap)
                 ops, ncr = self.judge(res, 0, ev, True, obs, [], 0, replay)
-                if mode == 'before':
-                    before[n] = self.lines[-1][1]
+                if mode == 'before' and (not self.xfs or label.startswith('xcopy:')):
+                    before[n] = canon_impl(obs, self.cids)
                 self.count('crash:' + label + (':torn' if mode == 'partial' else ''))
                 if (n, mode) not in chosen:
                     continue
@@ -904,7 +1077,7 @@ class Case:
                     env2 = copy_env(snap)
                     try:
                         replay2 = dict(replay, then='retry' if retry else 'skip')
-                        ev2, failure = execute(env2, hist, start)
+                        ev2, failure = execute(env2, hist, start, None, 0, self.xfs)
                         if failure:
                             self.fail(failure, replay2)
                         self.judge(res, start, ev2, False, observe(env2), ops, ncr, replay2)
@@ -917,12 +1090,12 @@ class Case:
             for n in (r.sample(ticks, min(self.kills, len(ticks))) if ticks else []):
                 envk = Env()
                 try:
-                    rc = killed_run(envk, hist, n)
+                    rc = killed_run(envk, hist, n, self.xfs)
                     got = canon_impl(observe(envk), self.cids)
-                    want = {k: v for k, v in before[n].items() if k != 'flags'}
+                    want = before[n]
                     self.count('killed-process-cross-check')
                     if rc != CRASH_RC or got != want:
-                        self.kill_diffs.append(({'hist': hist, 'crash': [n, 'before', '?'], 'rc': rc}, want, got))
+                        self.kill_diffs.append((dict(base, crash=[n, 'before', '?'], rc=rc), want, got))
                 finally:
                     envk.close()
         finally:
@@ -937,7 +1110,7 @@ def compare(res, line, reply):
     if 'error' in model:
         res.diff('Blob.run rejected the operation list', replay, model, impl)
         return
-    want = {'store': model['store'], 'prime': model['prime'], 'stage': model['stage'],
+    want = {'store': model['store'], 'prime': model['prime'], 'stage': model['stage'], 'incoming': model['incoming'],
             'flags': [f for f in model['flags'][off:] if f != 'N']}  # this segment's reports, in order
     if want != impl:
         res.diff('Blob.run vs encode/move/Worker.do/_update/remove/purge on disk', replay, want, impl)
@@ -1003,6 +1176,18 @@ CORPUS = [
 ]
 
 
+# histories of the part "staging area on another file system"
+XFS_CORPUS = [
+    # one value; after the crash the same update is retried (same content stored again)
+    [upd(1, 'T1', 'tk1', 'A1', [['S1', [['v1', 2]]]])],
+    # the same content again under another run, then another content under another target
+    [upd(1, 'T1', 'tk1', 'A1', [['S1', [['v1', 5]]]]), upd(2, 'T1', 'tk1', 'A1', [['S1', [['v1', 5]]]]),
+     upd(1, 'T2', 'tk1', 'A1', [['S1', [['v1', 2]]]])],
+    # a serialisation of 1 MiB + 1 bytes and a small one in one update, the large one again later
+    [upd(1, 'T1', 'tk1', 'A1', [['S1', [['v1', 10], ['w2', 2]]]]), upd(2, 'T1', 'tk1', 'A1', [['S1', [['v1', 10]]]])],
+]
+
+
 # ------------------------------------------------------------------ entry points
 def _prepare():
     common.use_repo()
@@ -1015,35 +1200,49 @@ def _prepare():
 
 
 def _run_case(args):
-    hist, cont, kills, seed = args
+    hist, cont, kills, seed = args[:4]
+    xfs = len(args) > 4 and args[4]
     res = common.Result()
-    case = Case(hist, cont, kills, seed)
+    case = Case(hist, cont, kills, seed, xfs)
     case.run(res)
     return {'hits': res.hits, 'lines': case.lines, 'stats': case.stats, 'program': case.program,
-            'failure': case.failure, 'kill_diffs': case.kill_diffs}
+            'failure': case.failure, 'kill_diffs': case.kill_diffs, 'xfs': xfs}
 
 
 def run(ctx, res):
     _prepare()
     r = common.rng(ctx['seed'], 'C07')
     thorough = ctx['tier'] == 'thorough' or ctx['escalate']
-    res.rule = ('histories of Interface._update/_update_msv, remove and purge.py with contents from a pool of 12 (four of them serialise to 1 MiB-1, 1 MiB, 1 MiB+1, 2 MiB+3 bytes) '
-                '(+ metric values) across runs/targets/tasks/algorithms; per history one execution on real '
-                'dbm files and directories during which the disk is copied in front of EVERY intercepted '
-                'file-system/table/wire call (what a process killed there leaves; each pickle.dump also torn), '
-                'then restart with retry / skip of the interrupted operation and the remainder; every disk state '
-                'is re-read, judged by the property and compared with Blob.run on the same micro-step budgets; '
-                'a sample of crash points is repeated with a forked process that really dies (os._exit); '
-                'non-trivial = a crash point or a non-empty store; distinct by history + crash point + restart mode')
+    res.rule = ('histories of Interface._update/_update_msv, remove and purge.py with contents from a pool of 12 '
+                '(four of them serialise to 1 MiB-1, 1 MiB, 1 MiB+1, 2 MiB+3 bytes) + metric values across '
+                'runs/targets/tasks/algorithms, in two configurations: staging directory on the store\'s file system, '
+                'and on another one (statistics xfs:*, signatures C07:xfs:*; every rename from the staging directory '
+                'into the store directory tree answers EXDEV as a second file system does, so that the real '
+                'shutil.move copies and unlinks).  Per history one execution on real dbm files and directories during '
+                'which the disk is copied in front of EVERY intercepted file-system/table/wire call (what a process '
+                'killed there leaves; each pickle.dump also torn; inside the cross-file-system copy: in front of the '
+                'creation of the destination, of each of four partial writes, of copystat and of the unlink of the '
+                'staged file), then restart with retry / skip of the interrupted operation and the remainder; every '
+                'disk state is re-read, judged by the property and compared with Blob.run of the same configuration '
+                'on the same micro-step budgets; the observed order of calls of every update is compared with the '
+                'regenerated program expanded for the configuration; a sample of crash points is repeated with a '
+                'forked process that really dies (os._exit); non-trivial = a crash point or a non-empty store; '
+                'distinct by configuration + history + crash point + restart mode')
     res.assumptions = list(TRUSTED)
-    cases = [(h, 'all' if thorough else 4, 1, ctx['seed']) for h in CORPUS]
-    n = 24 if thorough else 6
+    cases = [(h, 'all' if thorough else 4, 1, ctx['seed'], False) for h in CORPUS]
+    n = 20 if thorough else 5
     sizes = [2, 3, 3, 4, 5, 6] if thorough else [2, 3, 3, 4]
     for i in range(n):
         h = gen_history(r, sizes)
-        cases.append((h, ('all' if len(h) <= 2 else 10) if thorough else 3, 1 if thorough else i % 2, ctx['seed'] + i))
+        cases.append((h, ('all' if len(h) <= 2 else 10) if thorough else 3, 1 if thorough else i % 2,
+                      ctx['seed'] + i, False))
+    # the same on "another file system": every crash point inside the copy is continued
+    for h in XFS_CORPUS:
+        cases.append((h, 'xfs', 2, ctx['seed'], True))
+    for i in range(8 if thorough else 2):
+        cases.append((gen_history(r, [2, 3] if thorough else [2]), 'xfs', 1, ctx['seed'] + i, True))
     if thorough:
-        cases.append((gen_history(r, [9]), 8, 1, ctx['seed']))
+        cases.append((gen_history(r, [9]), 8, 1, ctx['seed'], False))
         import multiprocessing
 
         with multiprocessing.get_context('fork').Pool(min(16, os.cpu_count() or 2)) as pool:
@@ -1051,13 +1250,15 @@ def run(ctx, res):
     else:
         outs = [_run_case(c) for c in cases]
     lines, owners = [], []
-    for (hist, _cont, _k, _s), out in zip(cases, outs):
+    for case_args, out in zip(cases, outs):
+        hist = case_args[0]
+        pre = 'xfs:' if out['xfs'] else ''
         for h in out['hits']:
             res.hit(h['sig'], h['what'], h['replay'])
         for k, v in out['stats'].items():
-            res.count(k, v)
-        res.count('histories')
-        res.count('ops/history:%d' % len(hist))
+            res.count(pre + k, v)
+        res.count(pre + 'histories')
+        res.count(pre + 'ops/history:%d' % len(hist))
         if out['failure']:
             res.diff('the real code raised while a history was executed', out['failure'].get('replay'),
                      'completes', {k: v for k, v in out['failure'].items() if k != 'replay'})
@@ -1069,19 +1270,26 @@ def run(ctx, res):
             crash = ln[3].get('crash')
             res.case((json.dumps(ln[3], sort_keys=True),), nontrivial=bool(crash) or bool(ln[1]['store']),
                      sample={'model_ops': ln[0][:400], 'crash': crash, 'then': ln[3].get('then'), 'disk': ln[1]}
-                     if crash and crash[2] in ('rename', 'set:prime', 'unlink') else None)
+                     if crash and crash[2] in ('replace', 'set:prime', 'xcopy:write') and ln[3].get('then') else None)
     res.traces = len(lines)
     if ctx['lean']:
-        replies = common.driver(lines + [common.sx(['blob', 'program'])], 'C07')
+        replies = common.driver(lines + [common.sx(['blob', 'program', False]), common.sx(['blob', 'program', True])],
+                                'C07')
         for ln, rep in zip(owners, replies):
             compare(res, ln, rep)
-        # translator validation: the regenerated program lists the effects in the order the real code makes them
-        prog = common.parse_sx(replies[-1])
-        gen = [p if isinstance(p, str) else p[0] for p in prog]
+        # translator validation, both configurations: the regenerated program, expanded for the configuration and
+        # restricted to the branch taken, lists the micro-steps in the order the real code made them
+        progs = {}
+        for xfs, rep in ((False, replies[-2]), (True, replies[-1])):
+            prog = common.parse_sx(rep)
+            for ex in (True, False):
+                progs[(xfs, ex)] = [p[1] for p in prog if p[0] == 'N' or p[0] == ('T' if ex else 'F')]
         for out in outs:
-            bad = [seq for seq in out['program'] if seq and seq != gen]
+            bad = [(ex, seq) for ex, seq in out['program'] if ex is not None and seq != progs[(bool(out['xfs']), ex)]]
             if bad:
-                res.diff('Generated.Blob.program vs the observed order of calls of one update', {}, gen, bad[0])
+                ex, seq = bad[0]
+                res.diff('Generated.Blob.program (expanded) vs the observed order of calls of one update',
+                         {'xfs': bool(out['xfs']), 'exists': ex}, progs[(bool(out['xfs']), ex)], seq)
                 break
 
 
@@ -1089,14 +1297,15 @@ def replay(rep, res):
     _prepare()
     inp = rep['input']
     hist = inp['hist']
-    case = Case(hist, None)
+    xfs = bool(inp.get('xfs'))
+    case = Case(hist, None, 0, 0, xfs)
     crash = inp.get('crash')
     env = Env()
     snaps = []
     try:
         if not crash:
-            events, _failure = execute(env, hist, 0)
-            case.judge(res, 0, events, False, observe(env), [], 0, {'hist': hist})
+            events, _failure = execute(env, hist, 0, None, 0, xfs)
+            case.judge(res, 0, events, False, observe(env), [], 0, dict({'hist': hist}, **({'xfs': True} if xfs else {})))
             return
         flat = case.flat
 
@@ -1111,11 +1320,13 @@ def replay(rep, res):
                     f.write(data[: max(1, len(data) // 2)])
             raise Killed()
 
-        execute(env, hist, 0, hook)
+        execute(env, hist, 0, hook, 0, xfs)
         if not snaps:
             return
         snap, ev = snaps[0]
         base = {'hist': hist, 'crash': crash}
+        if xfs:
+            base['xfs'] = True
         ops, ncr = case.judge(res, 0, ev, True, observe(snap), [], 0, base)
         if inp.get('then'):
             opi = max([e['i'] for e in ev if e['e'] == 'op'], default=0)
@@ -1123,7 +1334,7 @@ def replay(rep, res):
             if start < len(hist):
                 env2 = copy_env(snap)
                 snaps.append((env2, None))
-                ev2, _failure = execute(env2, hist, start)
+                ev2, _failure = execute(env2, hist, start, None, 0, xfs)
                 case.judge(res, start, ev2, False, observe(env2), ops, ncr, dict(base, then=inp['then']))
     finally:
         for snap, _ in snaps:
